@@ -697,4 +697,110 @@ Proof.
   all: destruct (l_ctx L =? gen_ContextMarkdown); [destruct (m_sol st); [exact Hacb|]|].
   all: simpl; apply (Hmv L P); [exact HsL|lia|lia|reflexivity|reflexivity].
 Qed.
+
+Lemma mu_decr st st' : MI st' -> apos st < apos st' -> mu st' < mu st.
+Proof.
+  intros HM H. pose proof (MI_apos _ HM). unfold mu.
+  destruct (is_attr (l_ctx (m_l st'))); destruct (is_attr (l_ctx (m_l st))); lia.
+Qed.
+
+Definition bodypost (st : mst) (r : step mst) : Prop :=
+  match r with
+  | Again s' => MI s' /\ mu s' < mu st
+  | Stop s' => s' = st /\ len (m_l st) <= m_p st
+  end.
+
+Lemma scan_body_safe fc isHTML st :
+  MI st -> safe (scan_body U noshow fc isHTML st) (bodypost st) (INV text).
+Proof.
+  intros HM. pose proof HM as (Hi & Hp' & Ht). unfold scan_body. cbv zeta.
+  destruct (N.ltb_spec (m_p st) (len (m_l st))) as [Hp|Hp]; cbn [negb]; [|simpl; split; [reflexivity|exact Hp]].
+  sstep.
+  set (st1 := if l_ctx (m_l st) =? gen_ContextMarkdown then mset_sol (m_sol st && isSpace c) st else st).
+  assert (Hst1 : m_l st1 = m_l st /\ m_p st1 = m_p st /\ (forall l p, mset_lp l p st1 = mset_sol (m_sol st1) (mset_lp l p st)) ) by
+    (unfold st1; destruct (_ =? gen_ContextMarkdown); repeat split).
+  assert (HM1 : MI st1) by (unfold st1; destruct (_ =? gen_ContextMarkdown); exact HM).
+  assert (Ha1 : apos st1 = apos st) by (unfold st1; destruct (_ =? gen_ContextMarkdown); reflexivity).
+  assert (Hmu1 : mu st1 = mu st) by (unfold st1; destruct (_ =? gen_ContextMarkdown); reflexivity).
+  assert (Hl1 : m_l st1 = m_l st) by apply Hst1. assert (Hp1 : m_p st1 = m_p st) by apply Hst1.
+  clearbody st1.
+  assert (Hadv : forall l' p' s', same_core (m_l st) l' -> m_p st < p' -> p' <= len (m_l st) ->
+                   m_l s' = l' -> m_p s' = p' -> bodypost st (Again s')).
+  { intros l' p' s' Hs H1 H2 Hl' Hp2. pose proof (same_core_len _ _ Hs) as Hlen. destruct Hs as (Hs1 & Hb & Hs3).
+    assert (HMs : MI s') by
+      (unfold MI; rewrite Hl', Hp2; split; [eapply INV_eq; [exact Hs1|apply Hb|exact Hs3|exact Hi]|lia]).
+    split; [exact HMs|]. apply mu_decr; [exact HMs|]. unfold apos. rewrite Hl', Hp2. lia. }
+  destruct ((l_ctx (m_l st) =? gen_ContextMarkdown) && (c =? 92)).
+  { (* Markdown backslash *)
+    change (len (addcol 1 (m_l st))) with (len (m_l st)).
+    sstep; [rewrite bind_assoc; sstep|].
+    all: try (change (len (addcol 1 (m_l st))) with (len (m_l st)); b2p; lia).
+    1: rewrite bind_ok; match goal with |- context [if ?b then _ else _] => destruct b end.
+    2,3: simpl; apply (Hadv (addcol 1 (m_l st)) (m_p st + 1)); [auto with sc|b2p; lia|b2p; lia|reflexivity|reflexivity].
+    destruct (decode_rune (drop (m_p st + 1) (l_src (addcol 1 (m_l st))))) as [r w] eqn:Hd.
+    assert (Hq : m_p st + 1 < len (addcol 1 (m_l st))) by (change (len (addcol 1 (m_l st))) with (len (m_l st)); b2p; lia).
+    destruct (decode_at (addcol 1 (m_l st)) (m_p st + 1) r w Hq Hd) as [Hw1 Hw2]. change (len (addcol 1 (m_l st))) with (len (m_l st)) in Hw2.
+    simpl. match goal with |- context [mset_lp ?l3 _ _] => apply (Hadv l3 (m_p st + 1 + N.of_nat w)) end;
+      [|lia|lia|reflexivity|reflexivity].
+    destruct (get (l_src (m_l st)) (m_p st + 1)) as [d0|]; [destruct (isStartChar d0)|]; repeat split. }
+  eapply safe_bind with (Q' := fun d => match d with Some _ => m_p st + 1 < len (m_l st) | None => True end).
+  { destruct ((c =? 123) && (m_p st + 1 <? len (m_l st))) eqn:E; [|simpl; exact I]. b2p. sstep. simpl. lia. }
+  intros d Hd.
+  assert (Hdelim : forall (f : lexer -> res lexer) (k : lexer -> res (step mst)),
+            d <> None ->
+            (forall l1, INV text l1 -> 2 <= len l1 -> safe (f l1) (prog text l1) (ext text l1)) ->
+            (forall l1 l2, l_tidx l1 = 0 -> l_base l1 = apos st -> prog text l1 l2 -> safe (k l2) (bodypost st) (INV text)) ->
+            safe (let* l1 := flush_text st1 in let* l2 := f l1 in k l2) (bodypost st) (INV text)).
+  { intros f k Hdn Hf Hk. destruct d as [x|]; [|congruence].
+    destruct (flush_text_spec st1 HM1) as (l1 & H1 & Hi1 & Hb1 & Hl1' & Hc1 & Hs1). rewrite H1, bind_ok.
+    eapply safe_bind.
+    - eapply safe_mono; [apply Hf; [exact Hi1|rewrite Hl1', Hl1, Hp1; lia]|intros a Ha; exact Ha|intros l' [Hl' _]; exact Hl'].
+    - intros l2 Hp2. apply (Hk l1 l2); [apply Hb1|rewrite <- Ha1; apply Hb1|exact Hp2]. }
+  assert (Hres : forall l1 l2, l_tidx l1 = 0 -> l_base l1 = apos st -> prog text l1 l2 -> bodypost st (Again (resync l2 st1))).
+  { intros l1 l2 Ht1 Hb1 [Hi2 Hp2]. assert (HMr : MI (resync l2 st1)) by (apply MI_resync; [exact Hi2|lia]).
+    split; [exact HMr|]. apply mu_decr; [exact HMr|]. unfold apos at 2. cbn. lia. }
+  destruct (oeq d 123 && negb noshow) eqn:E1.
+  { apply (Hdelim (lex_show U) (fun l2 => Ok (Again (resync l2 st1)))).
+    - destruct d; [discriminate|discriminate].
+    - intros; apply lex_show_safe; assumption.
+    - intros l1 l2 H1 H2 H3. simpl. apply (Hres l1); assumption. }
+  destruct (oeq d 37) eqn:E2.
+  { destruct d as [x|]; [|discriminate].
+    destruct (flush_text_spec st1 HM1) as (l1 & H1 & Hi1 & Hb1 & Hl1' & Hc1 & Hs1). rewrite H1, bind_ok.
+    assert (H2l : 2 <= len l1) by (rewrite Hl1', Hl1, Hp1; lia).
+    eapply safe_bind with (Q' := fun three => three = true -> 3 <= len l1).
+    { unfold andm. destruct (N.ltb_spec 2 (len l1)); [|simpl; discriminate].
+      destruct (idx_ok l1 2 H) as (x2 & Hx2 & _). unfold idx_is. rewrite Hx2. simpl. intros _. lia. }
+    intros three H3.
+    eapply safe_bind with (Q' := prog text l1).
+    - eapply safe_mono with (E := ext text l1); [|intros a Ha; exact Ha|intros l' [Hl' _]; exact Hl'].
+      destruct three; [apply lex_statements_safe; [exact Hi1|apply H3; reflexivity]|apply lex_statement_safe; assumption].
+    - intros l2 Hp2. pose proof (Hres l1 l2 (proj2 Hb1) ltac:(rewrite <- Ha1; apply Hb1) Hp2) as Hr.
+      destruct (l_raw l2) as [m|] eqn:Er; [|simpl; exact Hr].
+      eapply safe_bind; [eapply safe_mono; [apply (skip_raw_content_safe l2 m Er)|intros a Ha; exact Ha|intros ? []]|].
+      intros [l3 q] [Hs3 Hq]. simpl in Hs3, Hq. simpl.
+      destruct Hr as [HMr Hmr]. destruct Hp2 as [Hi2 Hp2].
+      pose proof (same_core_len _ _ Hs3) as Hl3. destruct Hs3 as (Hs31 & Hb3 & Hs33).
+      assert (HMq : MI (mset_lp l3 q (resync l2 st1))).
+      { unfold MI. cbn. split; [eapply INV_eq; [exact Hs31|apply Hb3|exact Hs33|exact Hi2]|lia]. }
+      split; [exact HMq|]. apply mu_decr; [exact HMq|]. unfold apos at 2. cbn. lia. }
+  destruct (oeq d 35) eqn:E3.
+  { apply (Hdelim lex_comment (fun l2 => Ok (Again (resync l2 st1)))).
+    - destruct d; discriminate.
+    - intros; apply lex_comment_safe; assumption.
+    - intros l1 l2 H1 H2 H3. simpl. apply (Hres l1); assumption. }
+  sstep; [sstep; [sstep|]|].
+  all: try match goal with |- safe (if ?b then _ else _) _ _ => destruct b end.
+  all: try (simpl; destruct (0 <? m_p st); [eapply INV_eq; [| | |exact Hi]; reflexivity|exact Hi]; fail).
+  all: rewrite ?bind_ok; cbn iota.
+  all: (eapply safe_bind;
+    [eapply safe_mono; [apply (ctx_switch_safe fc isHTML st1 c); [exact HM1|rewrite Hl1, Hp1; exact Hc]|intros a Haa; exact Haa|intros ? []]|]).
+  all: intros [st2 cont] [HM2 H2]; simpl in HM2, H2; rewrite Ha1 in H2.
+  all: destruct cont.
+  all: try (simpl; split; [exact HM2|]; destruct H2 as [H2|(H21 & H22 & H23)]; [apply mu_decr; assumption|];
+            unfold mu; rewrite H21, H23; rewrite Hl1 in H22; rewrite H22; lia).
+  all: destruct H2 as [H21 H22];
+       (eapply safe_mono; [apply bottom_safe; assumption| |intros ? []]);
+       intros [s'|s']; [|intros []]; intros [HMs Has]; split; [exact HMs|apply mu_decr; [exact HMs|lia]].
+Qed.
 End ScanProofs.
